@@ -672,6 +672,38 @@ func init() {
 			}
 			p.Faults = append(p.Faults, f)
 		}
+		if r.Bool(0.35) {
+			// connection monitoring: disconnect notifications (a grace period is pending), some followed
+			// by a reconnect; validation calls land inside the grace period, some with a read that fails
+			for i := range p.Insts {
+				p.Insts[i].Monitor = true
+				p.Insts[i].Grace = Pick(r, []time.Duration{0, 2 * p.H, 2*p.H + 5*sec, 3*p.H + 1})
+			}
+			for k := 0; k < 1+r.Intn(3); k++ {
+				i := r.Intn(n)
+				td := r.Dur(2*p.H, p.Until)
+				p.Actions = append(p.Actions, Action{At: td, Kind: ADisconnect, Inst: i})
+				g := 3 * p.H
+				if g < 5*sec {
+					g = 5 * sec
+				}
+				for j := 0; j < 1+r.Intn(3); j++ {
+					a := Action{At: td + r.Dur(0, g), Kind: Pick(r, []string{AValidateOD, AValidateOD, AValidate}), Inst: i}
+					switch r.Intn(4) {
+					case 0:
+						a.CtxCancelled = true
+					case 1:
+						p.Faults = append(p.Faults, Fault{Kind: Pick(r, []string{FError, FHang}), Err: Pick(r, []string{"timeout", "noresponders", "closed"}), Inst: i, Op: "get", From: a.At - 1, To: a.At + lat + 1})
+					case 2:
+						a.CtxTimeout = r.Dur(1, lat)
+					}
+					p.Actions = append(p.Actions, a)
+				}
+				if r.Bool(0.4) {
+					p.Actions = append(p.Actions, Action{At: td + r.Dur(0, 2*g), Kind: AReconnect, Inst: i})
+				}
+			}
+		}
 		p.Tail = 0
 		p.Sched = SchedCfg{YieldProb: Pick(r, []float64{0, 0.2}), StallMax: 0}
 		return p
